@@ -246,8 +246,12 @@ def visitFunctionDefRaw (st : RW) (node : Node) : RW × Node :=
           let argsL := args.nodesOf "args"
           let (idx, repl1) : Option Int × Node :=
             if st.repl.kind == "AnnAssign" then
-              let tid := (st.repl.nodeField "target").bind (·.atomField "id")
-              ((argsL.find? (fun a => a.atomField "arg" == tid && a.idx.isSome)).bind (·.idx), st.repl)
+              -- (fix: the default slot of the ADDRESSED argument - not of one named like the replacement -, counted
+              -- from the right: `pos - (len(args) - len(defaults))`, none when negative)
+              let nd : Int := (args.listField "defaults").length
+              let slot : Option Int := ((argsL.zipIdx).find? (fun (a, _) => a.loc == some st.search)).map
+                (fun (_, pos) => (pos : Int) - ((argsL.length : Int) - nd))
+              ((match slot with | some i => if i < 0 then none else some i | none => none), st.repl)
             else
               let cands : List Int := (st.repl.nodesOf "targets").flatMap fun t =>
                 (argsL.filter (·.idx.isSome)).filterMap fun a =>
